@@ -44,7 +44,15 @@ static scpi_result_t handler(scpi_t * c) {
     SCPI_CommandNumbers(c, nums, 2, -1);
     tr_printf("H%d(%s)", (int) SCPI_CmdTag(c), eff);
     tr_printf("i%d%d", (int) SCPI_IsCmd(c, eff), (int) SCPI_IsCmd(c, "ZZ:QQ"));
-    tr_printf("n%d,%d,%d;", nums[0], nums[1], nums[2]);
+    {   /* slots of numeric keywords; a slot inside the announced length (2) that no numeric keyword owns is the caller's scratch space
+         * ("~"); the slot behind the announced length must not be touched */
+        int nk = 0; const char * pp;
+        for (pp = c->param_list.cmd->pattern; *pp; pp++) if (*pp == '#') nk++;
+        tr_printf("n");
+        if (nk > 0) tr_printf("%d,", nums[0]); else tr_printf("~,");
+        if (nk > 1) tr_printf("%d,", nums[1]); else tr_printf("~,");
+        tr_printf("%d;", nums[2]);
+    }
     {   /* SCPI_IsCmd with spellings OTHER than the received one: every table entry's all-long and mandatory-short spelling */
         int e, kind;
         char probe[160];
@@ -81,7 +89,10 @@ static int ref_message(const int * units, int k, char * exp, size_t expsz, char 
         }
         if (hit >= 0) {
             int nn = rp_count_numeric(&pool_rp[tab_ids[hit]]);
-            o += (size_t) snprintf(exp + o, expsz - o, "H%d(%s)i10n%ld,%ld,-7;p", (int) table[hit].tag, eff, nn > 0 ? nums[0] : -7L, nn > 1 ? nums[1] : -7L);
+            o += (size_t) snprintf(exp + o, expsz - o, "H%d(%s)i10n", (int) table[hit].tag, eff);
+            if (nn > 0) o += (size_t) snprintf(exp + o, expsz - o, "%ld,", nums[0]); else o += (size_t) snprintf(exp + o, expsz - o, "~,");
+            if (nn > 1) o += (size_t) snprintf(exp + o, expsz - o, "%ld,", nums[1]); else o += (size_t) snprintf(exp + o, expsz - o, "~,");
+            o += (size_t) snprintf(exp + o, expsz - o, "-7;p");
             { int e2, kind; char probe[160]; long tmp2[RP_MAXKW];
               for (e2 = 0; e2 < tab_n; e2++) for (kind = 0; kind < 2; kind++) { int pl = rp_probe(&pool_rp[tab_ids[e2]], kind, probe); o += (size_t) snprintf(exp + o, expsz - o, "%d", rp_match(&pool_rp[tab_ids[hit]], probe, pl, tmp2, -1)); } }
             o += (size_t) snprintf(exp + o, expsz - o, ";%s", ((table[hit].tag / 100000) % 2 == 0) ? "E-200;" : "");
